@@ -130,6 +130,7 @@ package txpool
 // entry and, for a box, every sub-transaction's entry go): a removal done by hand would have to repeat all of that
 //@ func (*TxPool).GetTxs
 //@   props C18
+//@   opt atomic=RW
 //@   opt writes-only-via-callees=TxPool.txs,TxPool.hashIndexMap
 //@   requires wfPool(pool) && !held(pool.RW)
 //@   ensures wfPool(pool) && !held(pool.RW)
@@ -157,6 +158,7 @@ package txpool
 
 //@ func (*TxPool).AddTx
 //@   props C18
+//@   opt atomic=RW
 //@   requires wfPool(pool) && !held(pool.RW) && (tx != nil ==> wfPoolTx(tx)) && len(pool.txs) < 1<<40
 //@   ensures wfPool(pool) && !held(pool.RW)
 //@   ensures result == nil ==> tx != nil && len(pool.txs) == old(len(pool.txs)) + 1 && pool.txs[len(pool.txs) - 1] == tx
@@ -165,6 +167,7 @@ package txpool
 
 //@ func (*TxPool).AddTxs
 //@   props C18
+//@   opt atomic=RW
 //@   requires wfPool(pool) && !held(pool.RW) && forall(i, 0, len(txs), txs[i] != nil ==> wfPoolTx(txs[i])) && len(pool.txs) + len(txs) <= 1<<40 && (len(txs) == 0 || arrayOf(txs) != arrayOf(pool.txs))
 //@   ensures wfPool(pool) && !held(pool.RW) && 0 <= result && result <= len(txs) && len(pool.txs) == old(len(pool.txs)) + result
 //@   ensures forall(i, 0, old(len(pool.txs)), pool.txs[i] == old(pool.txs[i]))
@@ -173,6 +176,7 @@ package txpool
 
 //@ func (*TxPool).DelTxs
 //@   props C18
+//@   opt atomic=RW
 //@   requires wfPool(pool) && !held(pool.RW) && forall(i, 0, len(txs), txs[i] != nil ==> types.boxOK(txs[i])) && (len(txs) == 0 || arrayOf(txs) != arrayOf(pool.txs))
 //@   ensures wfPool(pool) && !held(pool.RW)
 //@   ensures forall(k, 0, len(txs), txs[k] != nil ==> forall(i, 0, len(pool.txs), pool.txs[i] != nil ==> pool.txs[i].Hash() != txs[k].Hash()))
@@ -198,13 +202,16 @@ package txpool
 //@   ensures !held(guard.RW) && !rheld(guard.RW)
 //@ func (*TxGuard).ExistTxs
 //@   props C19
+//@   opt atomic=RW
 //@   requires guard != nil && !held(guard.RW) && !rheld(guard.RW)
 //@   ensures !held(guard.RW) && !rheld(guard.RW)
 //@ func (*TxGuard).DelOldBlocks
 //@   props C19
+//@   opt atomic=RW
 //@   requires guard != nil && !held(guard.RW) && !rheld(guard.RW) && wfTB(guard.blockBuckets)
 //@   ensures !held(guard.RW) && !rheld(guard.RW)
 //@ func (*TxGuard).GetTxsByBranch
 //@   props C19
+//@   opt atomic=RW
 //@   requires guard != nil && !held(guard.RW) && !rheld(guard.RW)
 //@   ensures !held(guard.RW) && !rheld(guard.RW)
